@@ -112,4 +112,61 @@ class Dups:
             pass
 
 
-TARGETS = {"codebasin.report:find_duplicates": Dups()}
+class Report:
+    """report.duplicates(codebase, stream): the groups WRITTEN TO THE STREAM are the byte-wise partition"""
+    proved = False
+    role = "bounded check of the report writer (find_duplicates itself is under contract)"
+
+    def bound(self, tier):
+        return "6 small code bases, report written to an in-memory stream"
+
+    def inputs(self, tier, seed):
+        for k in range(6):
+            yield {"k": k}
+
+    def nontrivial(self, inp):
+        return True
+
+    def check(self, inp):
+        import io
+        k = inp["k"]
+        files = {"a.c": b"int x;\n", "sub/b.c": b"int x;\n", "u.c": b"int x;", "v.c": b"int y;\n"}
+        if k >= 1:
+            files.update({"e1.h": b"", "sub/e2.cpp": b"", "e3.c": b""})
+        if k >= 3:
+            files["w.c"] = b"int y;\n"
+        if k == 5:
+            files = {"only.c": b"1\n", "other.c": b"2\n"}
+        root = os.path.realpath(tempfile.mkdtemp(prefix="cbi_c16r_"))
+        try:
+            for rel, data in files.items():
+                p = os.path.join(root, rel)
+                os.makedirs(os.path.dirname(p), exist_ok=True)
+                with open(p, "wb") as fh:
+                    fh.write(data)
+            classes = {}
+            for rel, data in files.items():
+                classes.setdefault(data, set()).add(os.path.join(root, rel))
+            exp = sorted(sorted(g) for g in classes.values() if len(g) >= 2)
+            stream = io.StringIO()
+            try:
+                report.duplicates(CodeBase(root), stream)
+            except Exception as e:      # noqa: BLE001
+                return {"expected": "report written", "observed": f"raised {type(e).__name__}: {e}", "klass": "duplicates-report:raises"}
+            groups, cur = [], None
+            for line in stream.getvalue().splitlines():
+                if line.startswith("Match "):
+                    cur = []
+                    groups.append(cur)
+                elif line.startswith("- ") and cur is not None:
+                    cur.append(line[2:].strip())
+            obs = sorted(sorted(g) for g in groups)
+            if obs != exp:
+                rel = lambda gs: [[os.path.relpath(x, root) for x in g] for g in gs]      # noqa: E731
+                return {"expected": f"groups on the stream {rel(exp)}", "observed": f"{rel(obs)}", "klass": "duplicates-report:stream"}
+            return None
+        finally:
+            shutil.rmtree(root, ignore_errors=True)
+
+
+TARGETS = {"codebasin.report:find_duplicates": Dups(), "codebasin.report:duplicates": Report()}
